@@ -9,6 +9,7 @@ package event
 //@   property C37
 //@   requires newDKGSeed != nil
 //@   binds ghost.cacheSeen = false
+//@   binds ghost.tcShared = true
 //@   modifies ghost.cacheAdds, ghost.cacheLastAdd, ghost.cacheLastKey, ghost.cacheLastCache, ghost.tcContent, ghost.tcHit
 //@   ensures [proceeds-only-as-the-one-inserting-caller] result ==> ghost.cacheAdds == old(ghost.cacheAdds) + 1 && ghost.cacheLastAdd && ghost.cacheLastCache == d.dkgSeedCache && ghost.cacheLastKey == big2str(bigval(newDKGSeed))
 //@   ensures [duplicate-only-if-seen-or-the-atomic-insert-failed] !result ==> (ghost.cacheAdds == old(ghost.cacheAdds) && ghost.cacheSeen) || (ghost.cacheAdds == old(ghost.cacheAdds) + 1 && !ghost.cacheLastAdd && ghost.cacheLastCache == d.dkgSeedCache && ghost.cacheLastKey == big2str(bigval(newDKGSeed)))
